@@ -24,6 +24,8 @@ Import ListNotations.
 Open Scope bool_scope.
 Open Scope Z_scope.
 
+Module LoaderM.
+
 Definition path := list str.
 
 Definition slash : Z := 47.
@@ -136,3 +138,6 @@ Definition load (fuel : nat) (fs : fsys) (root : path) : lresult := load_file fu
 
 (* the include chain consists of distinct files of fs: its length is at most |fs| *)
 Definition fuel_for (fs : fsys) : nat := S (length fs).
+
+End LoaderM.
+Export LoaderM.
